@@ -235,11 +235,13 @@ Definition is_bs_name (n : list N) : bool :=
    The next character must be Latin-1 (the tokenizer looks at it through the checking `peek`). *)
 Definition ident_follow (n : list N) (rest : list char) : bool :=
   negb (hd_sat rest is_idc) && negb (is_bs_name n && hd_is rest 34).
-(* behind a number: no identifier character (digit, letter, underscore), no `.`, no `#`; and no sign when the
-   number ends with `e`/`E` (the tokenizer accepts an empty exponent: `1e` followed by `-` would read the sign) *)
+(* behind a number: no identifier character (digit, letter, underscore), no `.`, no `#`, no `:` (since commit
+   bba3236 `16:FF:` is a based literal: a ':' behind the digits starts one when a letter or digit follows); and no
+   sign when the number ends with `e`/`E` (the tokenizer accepts an empty exponent: `1e` followed by `-` would read
+   the sign) *)
 Definition ends_e (txt : list N) : bool := match rev txt with c :: _ => is_e c | [] => false end.
 Definition num_follow (txt : list N) (rest : list char) : bool :=
-  negb (hd_sat rest is_idc) && negb (hd_is rest 46) && negb (hd_is rest 35)
+  negb (hd_sat rest is_idc) && negb (hd_is rest 46) && negb (hd_is rest 35) && negb (hd_is rest 58)
   && negb (ends_e txt && (hd_is rest 45 || hd_is rest 43)).
 Definition follow_delim (last : option kind) (k : kind) (rest : list char) : bool :=
   let c1 := hd_is rest in
